@@ -15,10 +15,13 @@ case = {"mode": "inline"|"threaded", "sched": {"base": 0|1, "gaps": [[gap, v]...
         "tasks":  [{"prio": p|None, "form": "sub"|"target", "fast": bool, "prog": [op...]}],
         "timers": [{"t", "recurring", "abs", "self_stop", "rets": [...], "create": "init"|"task", "busy", "started": bool}],
         ("order" may also hold ["start", i] -- start() of a started=False timer -- and ["advance", seconds])
-        "fds":    [{"r_at": s|None, "w_at": s|None}],
-        "socks":  [{"arrivals": [[s, nbytes]...], "w_at": s, "sends": ["all"|k|0|"eagain"...]}]}
-op   = {"op": "y0"|"yn"|"sleep"|"select"|"recv"|"send"|"rfop"|"badop"|"block"|"call"|"acquire"|"release"|"quit"|"raise"|"exit"
+        "fds":    [{"r_at": s|None, "w_at": s|None, "hup_at": s|None, "hup_kind": "hup"|"err"}],   (hup_at: the other end goes away)
+        "socks":  [{"arrivals": [[s, nbytes]...], "w_at": s|None, "sends": ["all"|k|0|"eagain"...]}]}
+op   = {"op": "y0"|"yn"|"sleep"|"select"|"recv"|"send"|"rfop"|"badop"|"imm"|"block"|"call"|"acquire"|"release"|"quit"|"raise"|"exit"
               |"busy"|"wake"|"cancel"|"mktimer"|"starttimer", ...}   (the last five are in-step actions, they do not yield)
+"wake" calls Scheduler.schedule(target) when the target is blocked and not yet woken, and also when the target is already
+scheduled (it yielded 0, or was woken and has not run yet) -- see ASSUMPTIONS; "imm" is a blocking operation that completes at
+once (execute() returns True, or re-queues the task); "send" may have len 0; acquire / release / imm also occur in sub-tasks.
 """
 import itertools
 import os
@@ -33,7 +36,8 @@ LEVEL = "exploration"
 TECHNIQUE = ("model-based property testing of the real recoco Scheduler.run() loop under a virtual clock and a virtual "
              "select/epoll: exhaustive small program sets + Hypothesis program sets, trace invariants and a raise-vs-end twin run")
 LEVEL_TEXT = ("Exploration by generated program sets: every pair of programs of length <= 2 over a 10-op vocabulary, grids of timer "
-              "configurations and of descriptor-readiness instants are enumerated exhaustively, larger sets (<= 5 tasks, sub-task calls, "
+              "configurations, of descriptor-readiness / hang-up instants, of schedule() calls on already scheduled tasks and of operations "
+              "that complete at once (in tasks and sub-tasks) are enumerated exhaustively, larger sets (<= 5 tasks, sub-task calls, "
               "sockets, locks, timers, priorities) are drawn by Hypothesis. Each run is the real scheduler loop with virtual time, so "
               "never-early / exactly-once / not-late-by-polling are exact statements judged by an oracle that shares no code with recoco. "
               "Both select-hub modes: inline (scheduler loop on the calling thread) and threaded (scheduler loop and select hub on their own "
@@ -61,7 +65,19 @@ ASSUMPTIONS = [
   "two tasks that Recv on one socket: the loser of the race may get None (EAGAIN) without a timeout",
   "the raise-vs-end twin comparison is skipped for deviating thread schedules (decision indices of the two runs need not line up)",
   "the virtual select returns exactly the descriptors among those passed that are ready; select.epoll is replaced by a fake below the real EpollSelect",
-  "schedule() is only called on a task that is blocked by `yield False` / Sleep(None) and has not been woken yet",
+  "schedule() is only called on a task that is blocked by `yield False` / Sleep(None) and has not been woken yet, or on a task the "
+  "harness knows to be scheduled already (its outstanding request is `yield 0`, or it was woken and has not run since): there the call "
+  "must have no effect ('this method will not schedule a task to run multiple times'). On the same-thread path of schedule() the check "
+  "is immediate; on the other path a ScheduleTask checks one cycle later, after one more step of the target, so that path is only used "
+  "when that step is known to end in another `yield 0`. schedule() of a task that sleeps or waits for I/O is never generated "
+  "(it would legitimately cut the wait short)",
+  "a descriptor whose other end goes away (hup_at): select() reports it readable from then on (kind err: readable and writable); the fake "
+  "epoll reports EPOLLHUP (kind err: EPOLLERR|EPOLLHUP) without being asked, plus EPOLLIN / EPOLLOUT as far as registered and ready; a bare "
+  "hang-up is only reported to a registration that includes reading; Select never lists descriptors as exceptional",
+  "Send of an empty buffer must complete with 0 once the socket is writable or the timeout has passed (when is not judged beyond that)",
+  "an operation that completes at once (Lock.acquire of a lock that is free by the log's count of acquires and releases, "
+  "acquire(blocking=False), Lock.release by the holder, the harness's `imm` operation) must be continued; whether the continuation comes "
+  "in the same slice is not judged. A lock taken inside a sub-task belongs to the task that called it (it, or a later sub-task of it, releases it)",
   "locks are only released by their holder; lock exclusion itself is C07's subject, here only the step discipline around locks is judged "
   "(blocking acquire returns True; a release while somebody waits must resume some waiter)",
   "recurring timers: both 'previous due + interval' and 'previous firing + interval' are accepted as the next due time",
@@ -81,6 +97,13 @@ EXHAUSTIVE_SCOPE = {
            "(caught / uncaught / nested / Task(target=)), a one-shot and a recurring timer callback x 10 companion programs, both hub modes); poll grid (Select with/without fds, Recv, Send with timeout exactly 0 / 0.0 x fd and socket readiness x other work x select/epoll x "
            "inline/threaded); deferred-timer grid (Timer(started=False) one-shot/recurring/absolute, start() after .125/.375/.75 s from a task "
            "step or during start-up, cancelled before start, never started; both hub modes); lock grid (two tasks, programs of length <= 2 resp. acquire + 2 over {acquire, try-acquire, release, yield 0, yield .25} on one lock); "
+           "queued-wakes grid (schedule() of a task that is already scheduled: after 1..3 `yield 0`, after a real wake, after a timed wait "
+           "x 9 following waits x 5 waker programs x both schedule() paths x both hub modes); immediate-ops grid (Lock acquire / try-acquire / "
+           "release sequences and a harness operation that reclaims the running state or re-queues the task x {task, Task(target=), sub-task, "
+           "nested sub-task, sub-task of a Task(target=) whose caller releases} x before/after a Sleep x 3 companions x both hub modes); "
+           "hangups grid (descriptor hang-up / error at 3 instants x data readiness x read / write / both / two descriptors x timeout x "
+           "select/epoll x both hub modes); empty-sends grid (Send of 0 or 1 byte x writability x timeout x socket script x task / sub-task "
+           "x both hub modes); "
            "threaded hub: 100 pairs of one-op programs x 3 thread schedules + timer/descriptor grid x 2 schedules, and EVERY single deviation "
            "from the default thread schedule (each decision point x each alternative thread) of 4 small scenarios",
   "thorough": "as quick, plus all triples of programs of length 1 and pairs with one program of length 3, both schedule() paths; threaded hub: "
@@ -117,7 +140,7 @@ def _run_threaded(case):
 MODES = {"inline": _run_inline, "threaded": _run_threaded}
 
 
-_STRUCTURAL = ("task-killed", "no-quiescence", "scheduler-died", "raising-task-kills-scheduler", "subtask-exception-not-delivered")
+_STRUCTURAL = ("task-killed", "no-quiescence", "empty-send-never-completes", "scheduler-died", "raising-task-kills-scheduler", "subtask-exception-not-delivered")
 
 
 def run_case(case):
@@ -466,6 +489,107 @@ def _enum_locks(tier):
           yield {"mode": "inline", "horizon": 4, "locks": 1, "tasks": [{"prog": p0}, {"prog": p1}, {"prog": p2}]}
 
 
+def _enum_rewakes(tier):
+  """Scheduler.schedule() of a task that is ALREADY scheduled -- it sits in the ready queue because it yielded 0 (1..3 times),
+  or because it was woken a moment ago and has not run yet -- is documented as harmless.  Whatever the task waits for next must
+  still last as long as requested.  Both paths of schedule() (same thread: checked at once; other thread: checked by a
+  ScheduleTask a cycle later), both hub modes."""
+  follows = [
+    [{"op": "sleep", "n": 0.5}], [{"op": "yn", "n": 0.25}], [{"op": "select", "t": 0.25}], [{"op": "select", "r": [0], "t": None}],
+    [{"op": "recv", "sock": 0, "t": None}], [{"op": "block"}], [{"op": "acquire", "lock": 0}],
+    [{"op": "call", "sub": _sub([{"op": "sleep", "n": 0.25}])}], [{"op": "send", "sock": 0, "len": 2}],
+  ]
+  y0 = {"op": "y0"}
+  wake = {"op": "wake", "task": 0}
+  wakers = [[wake], [y0, wake], [wake, y0, wake], [wake, wake, {"op": "yn", "n": 0.125}, wake], [y0, wake, wake]]
+  holder = [{"op": "acquire", "lock": 0}, {"op": "yn", "n": 0.5}, {"op": "release", "lock": 0}]
+  for mode in ("inline", "threaded"):
+    for direct in (True, False):
+      if mode == "threaded" and not direct:
+        continue                       # in the threaded mode a task's step always runs on the scheduler's thread
+      for fo in follows:
+        for wk in wakers:
+          targets = [[y0] * k + fo + [y0] for k in (1, 2, 3)]
+          targets.append([{"op": "block"}, y0] + fo + [y0])          # woken once for real, then again before it has run
+          targets.append([{"op": "yn", "n": 0.125}, y0, y0] + fo)     # the same after a timed wait (queued by the hub first)
+          for tg in targets:
+            for order in (0, 1):
+              tasks = [{"prog": tg, "fast": True}, {"prog": wk, "fast": bool(order)}, {"prog": holder}]
+              yield {"mode": mode, "sched_thread": direct, "horizon": 4, "locks": 1,
+                     "fds": [{"r_at": 0.5}], "socks": [{"arrivals": [[0.5, 2]], "w_at": 0.5, "sends": []}],
+                     "order": [["task", 2], ["task", 0], ["task", 1]] if order == 0 else [["task", 2], ["task", 1], ["task", 0]],
+                     "tasks": tasks}
+
+
+def _enum_immediate(tier):
+  """Blocking operations that complete at once -- execute() returns True ('reclaim running state': Lock.acquire of a free lock,
+  acquire(blocking=False), Lock.release, a harness operation doing the same) or re-queues the task itself (DummyOp style) --
+  from a task, a Task(target=), a sub-task and a nested sub-task: the generator must be continued with the operation's value."""
+  acq, tryacq, rel = {"op": "acquire", "lock": 0}, {"op": "acquire", "lock": 0, "blocking": False}, {"op": "release", "lock": 0}
+  opss = [[acq], [tryacq], [acq, rel], [tryacq, tryacq, rel], [acq, {"op": "sleep", "n": 0.125}, rel], [{"op": "acquire", "lock": 1}, acq, rel]]
+  for v in ("token", 0, False, None):
+    opss.append([{"op": "imm", "how": "reclaim", "v": v}])
+  opss.append([{"op": "imm", "how": "requeue", "v": "token"}])
+  opss.append([{"op": "imm", "how": "requeue", "v": 0}, {"op": "imm", "how": "reclaim", "v": "token"}])
+  others = [[{"op": "y0"}, {"op": "y0"}], [{"op": "yn", "n": 0.25}, {"op": "y0"}],
+            [acq, {"op": "yn", "n": 0.25}, rel, {"op": "y0"}, tryacq]]
+  for mode in ("inline", "threaded"):
+    for ops in opss:
+      for pre in ([], [{"op": "sleep", "n": 0.125}]):
+        for post in ([], [{"op": "sleep", "n": 0.125}]):
+          body = pre + ops + post
+          sub1 = {"kind": "gen", "prog": body, "ret": {"v": "token"}}
+          sub2 = {"kind": "gen", "prog": [{"op": "call", "sub": sub1}], "ret": {"v": "token"}}
+          sites = [{"prog": body + [{"op": "y0"}]},
+                   {"form": "target", "prog": body + [{"op": "y0"}]},
+                   {"prog": [{"op": "call", "sub": sub1}, {"op": "y0"}]},
+                   {"prog": [{"op": "call", "sub": sub2}, {"op": "y0"}]},
+                   {"form": "target", "prog": [{"op": "call", "sub": dict(sub1, direct=True)}, rel, {"op": "y0"}]}]
+          for site in sites:
+            for other in others:
+              yield {"mode": mode, "horizon": 4, "locks": 2, "tasks": [site, {"prog": other}]}
+
+
+def _enum_hangups(tier):
+  """Descriptors whose other end goes away while (or before) a task waits for them in a Select that does not list them as
+  exceptional: select() reports a hang-up as 'readable' (an error as readable and writable); epoll reports EPOLLHUP / EPOLLERR
+  without being asked.  Either way the waiting task has to get the descriptor, and nobody else is affected."""
+  for mode in ("inline", "threaded"):
+    for hub in ("select", "epoll"):
+      for kind in ("hup", "err"):
+        for hup_at in (0, 0.25, 0.75):
+          for r_at in (None, 0.125, 1.0):
+            for sel in ({"r": [0]}, {"r": [0], "w": [0]}, {"w": [0]}, {"r": [0, 1]}):
+              if sel == {"w": [0]} and kind == "hup":
+                continue
+              for t in (None, 0.5):
+                for other in ([{"op": "yn", "n": 0.25}, {"op": "y0"}], [{"op": "select", "r": [1], "t": 1.5}],
+                              [{"op": "busy", "d": 0.5}, {"op": "select", "r": [0], "t": 0.125}]):
+                  if tier == "quick" and mode == "threaded" and (t is None or r_at == 1.0):
+                    continue
+                  yield {"mode": mode, "hub": hub, "horizon": 4,
+                         "fds": [{"r_at": r_at, "w_at": None, "hup_at": hup_at, "hup_kind": kind}, {"r_at": 1.25}],
+                         "tasks": [{"prog": [dict(sel, op="select", t=t), {"op": "y0"}, dict(sel, op="select", t=0.25)]},
+                                   {"prog": other}]}
+
+
+def _enum_empty_sends(tier):
+  """Send of an empty buffer (and of 1 byte, for comparison) x writability x timeout x socket behaviour, in a task and in a sub-task."""
+  for mode in ("inline", "threaded"):
+    for n in (0, 1):
+      for w_at in (0, 0.5, None):
+        for t in (None, 0, 0.5):
+          for sends in ([], ["eagain"], [0, "all"]):
+            for insub in (False, True):
+              for other in ([{"op": "y0"}], [{"op": "yn", "n": 0.25}, {"op": "send", "sock": 0, "len": 2}]):
+                if w_at is None and t is None and n:
+                  continue              # a non-empty Send on a socket that never becomes writable, without timeout, just waits
+                snd = {"op": "send", "sock": 0, "len": n, "t": t}
+                prog = [{"op": "call", "sub": _sub([snd])}, {"op": "y0"}] if insub else [snd, {"op": "y0"}, snd]
+                yield {"mode": mode, "horizon": 4, "socks": [{"arrivals": [], "w_at": w_at, "sends": sends}],
+                       "tasks": [{"prog": prog}, {"prog": other}]}
+
+
 # ---------------------------------------------------------------------------------------------- Hypothesis
 
 _DUR = [0.125, 0.25, 0.375, 0.5, 0.75, 1.0, 1.5, 2.5]
@@ -488,7 +612,7 @@ def _strategy(tier, mode="inline"):
   sleep_rel = st.fixed_dictionaries({"op": st.just("sleep"), "n": st.sampled_from([0] + _DUR)})
   sleep_abs = st.fixed_dictionaries({"op": st.just("sleep"), "n": st.sampled_from([-0.5, 0, 0.25, 0.5, 1.0]), "abs": st.just(True)})
   recv = st.fixed_dictionaries({"op": st.just("recv"), "sock": st.integers(0, 1), "t": opt_dur, "buf": st.sampled_from([None, None, 1, 2])})
-  send = st.fixed_dictionaries({"op": st.just("send"), "sock": st.integers(0, 1), "len": st.integers(1, 4),
+  send = st.fixed_dictionaries({"op": st.just("send"), "sock": st.integers(0, 1), "len": st.sampled_from([0, 1, 1, 2, 2, 3, 4]),
                                 "bs": st.sampled_from([None, None, 1, 2]), "t": st.sampled_from([None, None, None, 0.5, 0, 0.0])})
   busy = st.fixed_dictionaries({"op": st.just("busy"), "d": dur})
   ret = st.sampled_from(["end", {"v": "token"}, {"v": "token"}, {"v": 0}, {"v": False}, {"v": None}, {"v": ""}, {"raise": 1}, {"raise": 1},
@@ -501,8 +625,13 @@ def _strategy(tier, mode="inline"):
   badop = st.fixed_dictionaries({"op": st.just("badop"), "how": st.sampled_from(["raise", "release-unheld"]), "lock": st.integers(0, 1),
                                  "catch": st.sampled_from([True, True, False])})
 
+  acquire = st.fixed_dictionaries({"op": st.just("acquire"), "lock": st.integers(0, 1), "blocking": st.booleans()})
+  release = st.fixed_dictionaries({"op": st.just("release"), "lock": st.integers(0, 1)})
+  imm = st.fixed_dictionaries({"op": st.just("imm"), "how": st.sampled_from(["reclaim", "reclaim", "requeue"]),
+                               "v": st.sampled_from(["token", "token", 0, False, None, ""])})
+
   def subs(depth):
-    inner = [sleep_rel, sel_t, busy, recv, send, sel_fd, rfop, badop]
+    inner = [sleep_rel, sel_t, busy, recv, send, sel_fd, rfop, badop, acquire, release, imm]
     if depth > 0:
       inner.append(call(depth - 1))
     return st.fixed_dictionaries({"kind": st.sampled_from(["gen", "gen", "gen", "plain"]),
@@ -518,9 +647,7 @@ def _strategy(tier, mode="inline"):
     st.fixed_dictionaries({"op": st.just("block"), "how": st.sampled_from(["false", "sleepnone"])}),
     st.fixed_dictionaries({"op": st.just("wake"), "task": idx}),
     st.fixed_dictionaries({"op": st.just("wake"), "task": idx}),
-    call(1), call(1), rfop, badop,
-    st.fixed_dictionaries({"op": st.just("acquire"), "lock": st.integers(0, 1), "blocking": st.booleans()}),
-    st.fixed_dictionaries({"op": st.just("release"), "lock": st.integers(0, 1)}),
+    call(1), call(1), rfop, badop, acquire, release, imm,
     busy,
     st.fixed_dictionaries({"op": st.just("cancel"), "timer": idx}),
     st.fixed_dictionaries({"op": st.just("mktimer"), "timer": idx}),
@@ -542,7 +669,8 @@ def _strategy(tier, mode="inline"):
                            "create": st.sampled_from(["init", "init", "task"]), "busy": st.sampled_from([None, None, 0.125]),
                            "explicit_sched": st.booleans(), "started": st.sampled_from([True, True, False])}),
   )
-  fd = st.fixed_dictionaries({"r_at": st.one_of(st.none(), at), "w_at": st.one_of(st.none(), at)})
+  fd = st.fixed_dictionaries({"r_at": st.one_of(st.none(), at), "w_at": st.one_of(st.none(), at),
+                              "hup_at": st.one_of(st.none(), st.none(), st.none(), at), "hup_kind": st.sampled_from(["hup", "err"])})
   sock = st.fixed_dictionaries({"arrivals": st.lists(st.tuples(at, st.integers(1, 4)).map(list), max_size=4),
                                 "w_at": st.sampled_from([0, 0, 0, 0.5, 2.5]),
                                 "sends": st.lists(st.sampled_from(["all", "all", 1, 1, 2, 3, 0, "eagain"]), max_size=6)})
@@ -580,6 +708,8 @@ def _strategy(tier, mode="inline"):
 
 
 def plan(tier):
+  # C06_HYP_SCALE scales the Hypothesis budgets of the thorough tier (for a reduced run on a loaded machine); default: full budgets
+  scale = float(os.environ.get("C06_HYP_SCALE", "1"))
   if tier == "quick":
     return [
       Enum("pairs", lambda: _enum_pairs("quick"), shards=16),
@@ -591,6 +721,10 @@ def plan(tier):
       Enum("raises", lambda: _enum_raises("quick"), shards=4),
       Enum("failing-ops", lambda: _enum_failing_ops("quick"), shards=2),
       Enum("timers-deferred", lambda: _enum_deferred("quick"), shards=4),
+      Enum("queued-wakes", lambda: _enum_rewakes("quick"), shards=4),
+      Enum("immediate-ops", lambda: _enum_immediate("quick"), shards=4),
+      Enum("hangups", lambda: _enum_hangups("quick"), shards=4),
+      Enum("empty-sends", lambda: _enum_empty_sends("quick"), shards=4),
       Hyp("programs", lambda: _strategy("quick"), examples=3200, shards=16),
       Enum("threaded-grid", lambda: _enum_threaded("quick"), shards=8),
       Enum("threaded-preempt", lambda: _enum_preempt("quick"), shards=8),
@@ -607,9 +741,13 @@ def plan(tier):
     Enum("raises", lambda: _enum_raises("thorough"), shards=8),
     Enum("failing-ops", lambda: _enum_failing_ops("thorough"), shards=4),
     Enum("timers-deferred", lambda: _enum_deferred("thorough"), shards=8),
-    Hyp("programs", lambda: _strategy("thorough"), examples=300000, shards=16),
+    Enum("queued-wakes", lambda: _enum_rewakes("thorough"), shards=8),
+    Enum("immediate-ops", lambda: _enum_immediate("thorough"), shards=8),
+    Enum("hangups", lambda: _enum_hangups("thorough"), shards=8),
+    Enum("empty-sends", lambda: _enum_empty_sends("thorough"), shards=8),
+    Hyp("programs", lambda: _strategy("thorough"), examples=max(16, int(300000 * scale)), shards=16),
     Enum("threaded-grid", lambda: _enum_threaded("thorough"), shards=16),
     Enum("threaded-preempt", lambda: _enum_preempt("thorough"), shards=16),
     Enum("threaded-hub-window", lambda: _enum_hub_window("thorough"), shards=16),
-    Hyp("threaded-programs", lambda: _strategy("thorough", "threaded"), examples=40000, shards=16),
+    Hyp("threaded-programs", lambda: _strategy("thorough", "threaded"), examples=max(16, int(40000 * scale)), shards=16),
   ]
